@@ -65,9 +65,11 @@ pub fn relevant(prop: &str, v: &Violation) -> bool {
     match prop {
         // a reachable value lost after an adoption in an active phase is a barrier-path failure
         "C06" => (safety && v.active_adoptions > 0) || (v.prop == "C05" && matches!(v.tag, "weak-target-released" | "shell-released-while-referenced") && v.active_adoptions > 0),
-        "C05" => safety && v.has_upgrade_store,
+        // "never keeps its target's value alive": the exactness oracle's weak-only clause
+        "C05" => (safety && v.has_upgrade_store) || (v.prop == "C02" && v.tag == "weak-only-not-destructed"),
         "C11" => c1to5 && v.after_fault,
-        "C14" => safety && v.has_stash,
+        // "... and becomes collectable once the last such handle is dropped"
+        "C14" => (safety && v.has_stash) || (v.prop == "C02" && v.tag == "unreachable-not-collected" && v.has_stash),
         "C20" => (c1to5 && v.multi_arena) || (v.prop == "C14" && v.multi_arena && matches!(v.tag, "contains-wrong" | "try-fetch-wrong" | "fetch-foreign-accepted")),
         "C10" => v.prop == "C04" && v.tag == "count-after-drop",
         "C19" => false,
